@@ -1,0 +1,117 @@
+//go:build verif
+
+// Contracts for govc (see /verif/DESIGN.md). Comment-only file.
+
+package pack
+
+//@ property C13
+
+// (Put1/Put2/Put4 are verified against their contracts here and instantiated at
+// their call sites - 'inline' - so callers get plain array stores, no quantifiers)
+// The Encoder writes into a fixed size buffer (no append): every Put needs
+// room, keeps the backing array and capacity, and keeps what was written.
+//@ spec eAppended(e *Encoder, k int) bool = len(e.buf) == old(len(e.buf)) + k && ref(e.buf) == old(ref(e.buf)) && off(e.buf) == old(off(e.buf)) && cap(e.buf) == old(cap(e.buf)) && forall j :: 0 <= j && j < old(len(e.buf)) ==> e.buf[j] == old(e.buf[j])
+
+//@ func NewEncoder(size) (r)
+//@   requires size >= 0
+//@   ensures! r != nil && fresh(r) && len(r.buf) == 0 && cap(r.buf) == size && fresh(r.buf)
+
+//@ func (e *Encoder) Put1(b) (r)
+//@   inline
+//@   requires e != nil && len(e.buf) + 1 <= cap(e.buf)
+//@   modifies e.buf, elems(e.buf)
+//@   ensures! r == e && eAppended(e, 1)
+//@   ensures! bytes: e.buf[old(len(e.buf))] == b
+
+//@ func (e *Encoder) Put2(a, b) (r)
+//@   inline
+//@   requires e != nil && len(e.buf) + 2 <= cap(e.buf)
+//@   modifies e.buf, elems(e.buf)
+//@   ensures! r == e && eAppended(e, 2)
+//@   ensures! bytes: e.buf[old(len(e.buf))] == a && e.buf[old(len(e.buf)) + 1] == b
+
+//@ func (e *Encoder) Put4(a, b, c, d) (r)
+//@   inline
+//@   requires e != nil && len(e.buf) + 4 <= cap(e.buf)
+//@   modifies e.buf, elems(e.buf)
+//@   ensures! r == e && eAppended(e, 4)
+//@   ensures! bytes: e.buf[old(len(e.buf))] == a && e.buf[old(len(e.buf)) + 1] == b && e.buf[old(len(e.buf)) + 2] == c && e.buf[old(len(e.buf)) + 3] == d
+
+//@ func (e *Encoder) PutStr(s) (r)
+//@   requires e != nil && len(e.buf) + len(s) <= cap(e.buf)
+//@   modifies e.buf, elems(e.buf)
+//@   ensures! r == e && eAppended(e, len(s))
+//@   ensures! bytes: forall j :: 0 <= j && j < len(s) ==> e.buf[old(len(e.buf)) + j] == s[j]
+
+//@ func (e *Encoder) Put(b) (r)
+//@   requires e != nil && len(e.buf) + len(b) <= cap(e.buf) && ref(b) != ref(e.buf)
+//@   modifies e.buf, elems(e.buf)
+//@   ensures! r == e && eAppended(e, len(b))
+//@   ensures! bytes: forall j :: 0 <= j && j < len(b) ==> e.buf[old(len(e.buf)) + j] == b[j]
+
+// ---- big endian fixed width integers -----------------------------------------
+//@ func (e *Encoder) Uint16(n) (r)
+//@   mode bv
+//@   requires e != nil && len(e.buf) + 2 <= cap(e.buf)
+//@   modifies e.buf, elems(e.buf)
+//@   ensures! r == e && eAppended(e, 2)
+//@   ensures! bytes: e.buf[old(len(e.buf))] == byte(n >> 8) && e.buf[old(len(e.buf)) + 1] == byte(n)
+
+//@ func (d *Decoder) Uint16() (n)
+//@   mode bv
+//@   requires d != nil && len(d.s) >= 2
+//@   modifies d.s
+//@   ensures! value: n == (uint16(old(d.s[0])) << 8 | uint16(old(d.s[1])))
+//@   ensures! rest: d.s == old(d.s[2:])
+
+//@ func (e *Encoder) Uint32(n) (r)
+//@   mode bv
+//@   requires e != nil && len(e.buf) + 4 <= cap(e.buf)
+//@   modifies e.buf, elems(e.buf)
+//@   ensures! r == e && eAppended(e, 4)
+//@   ensures! bytes: e.buf[old(len(e.buf))] == byte(n >> 24) && e.buf[old(len(e.buf)) + 1] == byte(n >> 16) && e.buf[old(len(e.buf)) + 2] == byte(n >> 8) && e.buf[old(len(e.buf)) + 3] == byte(n)
+
+//@ func (d *Decoder) Uint32() (n)
+//@   mode bv
+//@   requires d != nil && len(d.s) >= 4
+//@   modifies d.s
+//@   ensures! value: n == (uint32(old(d.s[0])) << 24 | uint32(old(d.s[1])) << 16 | uint32(old(d.s[2])) << 8 | uint32(old(d.s[3])))
+//@   ensures! rest: d.s == old(d.s[4:])
+
+//@ func (e *Encoder) Int32(n) (r)
+//@   mode bv
+//@   requires e != nil && len(e.buf) + 4 <= cap(e.buf)
+//@   modifies e.buf, elems(e.buf)
+//@   ensures! r == e && eAppended(e, 4)
+//@   ensures! bytes: e.buf[old(len(e.buf))] == (byte(n >> 24) ^ 128) && e.buf[old(len(e.buf)) + 1] == byte(n >> 16) && e.buf[old(len(e.buf)) + 2] == byte(n >> 8) && e.buf[old(len(e.buf)) + 3] == byte(n)
+
+//@ func (d *Decoder) Int32() (n)
+//@   mode bv
+//@   requires d != nil && len(d.s) >= 4
+//@   modifies d.s
+//@   ensures! value: n == int(int32(old(d.s[0]) ^ 128) << 24 | int32(old(d.s[1])) << 16 | int32(old(d.s[2])) << 8 | int32(old(d.s[3])))
+//@   ensures! rest: d.s == old(d.s[4:])
+
+// big endian: the four bytes recombine to the number, and byte-wise order is numeric order
+//@ lemma! uint32_roundtrip(n uint32): (uint32(byte(n >> 24)) << 24 | uint32(byte(n >> 16)) << 16 | uint32(byte(n >> 8)) << 8 | uint32(byte(n))) == n
+//@   mode bv
+//@ lemma! uint32_order(m uint32, n uint32): m < n <==> (byte(m >> 24) < byte(n >> 24) || (byte(m >> 24) == byte(n >> 24) && (byte(m >> 16) < byte(n >> 16) || (byte(m >> 16) == byte(n >> 16) && (byte(m >> 8) < byte(n >> 8) || (byte(m >> 8) == byte(n >> 8) && byte(m) < byte(n)))))))
+//@   mode bv
+//@ lemma! int32_roundtrip(n int32): (int32(byte(n >> 24) ^ 128 ^ 128) << 24 | int32(byte(n >> 16)) << 16 | int32(byte(n >> 8)) << 8 | int32(byte(n))) == n
+//@   mode bv
+//@ lemma! int32_order(m int32, n int32): m < n <==> ((byte(m >> 24) ^ 128) < (byte(n >> 24) ^ 128) || (byte(m >> 24) == byte(n >> 24) && (byte(m >> 16) < byte(n >> 16) || (byte(m >> 16) == byte(n >> 16) && (byte(m >> 8) < byte(n >> 8) || (byte(m >> 8) == byte(n >> 8) && byte(m) < byte(n)))))))
+//@   mode bv
+
+//@ func NewDecoder(s) (r)
+//@   ensures! r != nil && fresh(r) && r.s == s
+//@ func (d *Decoder) Get1() (c)
+//@   requires d != nil && len(d.s) >= 1
+//@   modifies d.s
+//@   ensures! c == old(d.s[0]) && d.s == old(d.s[1:])
+//@ func (d *Decoder) Get(n) (s)
+//@   requires d != nil && 0 <= n && n <= len(d.s)
+//@   modifies d.s
+//@   ensures! s == old(d.s[:n]) && d.s == old(d.s[n:])
+//@ func (d *Decoder) Remaining() (r)
+//@   requires d != nil
+//@   ensures! r == len(d.s)
